@@ -414,6 +414,30 @@ def ch_channeled(ctx, rep):
     calls = [e for e in p.calls() if e.site is not None and ctx.prog.callee_body(e.site) is not None and ctx.prog.callee_body(e.site).path == sw.path]
     good = len(calls) == 1 and ctx.const_lit(calls[0].args[1])[1] == ctx.const_lit(("const", "store::DEFAULT_CAPACITY", "usize"))[1] and (ctx.enum_variant(calls[0].args[2]) or "").endswith("BackpressurePolicy::BlockOnFull") and calls[0].args[3] == ("param", 2)
     rep.check(good, "R5", "subscribed-defaults", ctx.where(sd), "subscribed() = subscribed_with(DEFAULT_CAPACITY, BlockOnFull, subscriber)", "subscribed() passes %s" % [term_str(a) for e in calls for a in e.args])
+    # every other `subscribed` / `subscribed_with` of the crate (Store trait impls and default
+    # bodies, wrappers) ends in the channel-creating inherent method: a subscriber asked for
+    # through any of them runs on its own thread, never on the reducer thread
+    for ob in ctx.prog.bodies:
+        if ob.is_closure() or ob.j.get("name") not in ("subscribed", "subscribed_with") or ob.path in (sd.path, sw.path):
+            continue
+        reach_o = ctx.sync_reach([ob])
+        rep.note_fn(ob.path)
+        rep.check(sw.path in reach_o, "R5", "subscribed-is-channeled:%s" % short(ob.path), ctx.where(ob), "%s forwards to the channel-creating subscribed_with" % short(ob.path),
+                  "%s does not reach StoreImpl::subscribed_with: the subscriber is registered directly and runs on the reducer thread, ignoring capacity and policy" % short(ob.path))
+        if ob.j.get("name") == "subscribed" and sw.path in reach_o:
+            # the argument-less form has the same lossless defaults whichever impl is called
+            okd = True
+            seen_call = False
+            for p_ in ctx.paths(ob, inline=True).paths:
+                if p_.end != "return":
+                    continue
+                cs_ = [e for e in p_.calls() if e.site is not None and ctx.prog.callee_body(e.site) is not None and ctx.prog.callee_body(e.site).path == sw.path]
+                for e in cs_:
+                    seen_call = True
+                    if not (ctx.const_lit(e.args[1])[1] == ctx.const_lit(("const", "store::DEFAULT_CAPACITY", "usize"))[1] and (ctx.enum_variant(e.args[2]) or "").endswith("BackpressurePolicy::BlockOnFull")):
+                        okd = False
+            rep.check(okd and seen_call, "R5", "subscribed-defaults:%s" % short(ob.path), ctx.where(ob), "%s = subscribed_with(DEFAULT_CAPACITY, BlockOnFull, ..)" % short(ob.path),
+                      "%s does not pass (DEFAULT_CAPACITY, BlockOnFull) to subscribed_with: the same subscriber is lossless or lossy depending on whether it was attached through the trait or the inherent method" % short(ob.path))
     # the channel of subscribed_with uses the caller's capacity and policy
     ctor = [e for e in evs.values() if A.is_chan_ctor_call(e.site)]
     if rep.exact("R5", "channels created by subscribed_with", len(ctor), 1, ctx.where(sw)):
@@ -452,6 +476,18 @@ def ch_channeled_release(ctx, rep):
                 rep.check(good, "R2", "disconnect-then-join:" + short(b.path), joins[0].site.where if joins else ctx.where(b), "sender slot emptied and dropped, then the subscriber thread is joined", "release path [%s]: sender dropped first=%s, joins=%d" % (p.describe(), bool(dropped) and bool(joins) and p.events.index(dropped[0]) < p.events.index(joins[0]), len(joins)))
             else:
                 rep.check(not joins, "R2", "second-release-does-nothing:" + short(b.path), ctx.where(b), "handle already taken: no join (idempotent)", "join without handle")
+    # a panic of the joined thread stays there: the release runs under the subscriber-list lock
+    # of its caller, so re-raising it (resume_unwind, unwrap/expect on the join result) poisons
+    # that lock and the reducer thread dies at its next `lock().unwrap()`
+    for js in cr_sites:
+        b = js.body
+        bp_ = ctx.prog.bp(b)
+        jr = ("call", (b.path, js.bb), js.ck)
+        rethrow = [x for x in ctx.prog.sites(b) if x.ck in ("std::panic::resume_unwind", "std::rt::begin_panic", "core::panicking::panic_fmt", "std::panicking::begin_panic")
+                   or (x.ck in ("std::result::Result::unwrap", "std::result::Result::expect", "std::result::Result::unwrap_or_else") and x.term["args"] and any(st == jr for st in subterms(bp_.arg_term(x.bb, 0))))]
+        rethrow = [x for x in rethrow if not x.body.blocks[x.bb].get("cleanup")]
+        rep.check(not rethrow, "R2", "join-result-not-rethrown:" + short(b.path), rethrow[0].where if rethrow else js.where, "the join result is looked at / ignored, a panic of the subscriber thread is not re-raised",
+                  "%s re-raises the subscriber thread's panic (%s) on the releasing thread, under its caller's subscriber-list lock" % (short(b.path), sorted({x.ck.split("::")[-1] for x in rethrow})))
     # reached from on_unsubscribe and Subscription::unsubscribe of the wrapper
     for tr, m in (("Subscriber", "on_unsubscribe"), ("Subscription", "unsubscribe")):
         try:
@@ -470,3 +506,61 @@ def _flat(ctx, body, t, depth=0):
             term = body.blocks[st[1][1]]["term"]
             for i in range(len(term["args"])):
                 yield from _flat(ctx, body, bp.arg_term(st[1][1], i), depth + 1)
+
+
+# ---- adapters ------------------------------------------------------------------------------------
+ADAPTER_METHODS = {"Subscriber": "on_notify", "Reducer": "reduce", "Selector": "select"}
+PRIMS = {"bool", "usize", "isize", "u8", "u16", "u32", "u64", "u128", "i8", "i16", "i32", "i64", "i128", "f32", "f64", "char", "str", "()"}
+
+
+def ad1_adapters_forward_unconditionally(ctx, rep, traits=("Subscriber", "Reducer", "Selector")):
+    """the exported closure adapters (`FnSubscriber`, `FnReducer`, `FnSelector`: a public struct
+    with a field of a type parameter `F`, implementing a callback trait) are transparent: every
+    path through the trait method calls the wrapped closure exactly once with the method's own
+    arguments, takes no lock and skips nothing - what the user registered is what the store
+    calls"""
+    R = "AD1"
+    from mirq.locks import LOCK_CALLS
+    FN = ("std::ops::Fn::call", "std::ops::FnMut::call_mut", "std::ops::FnOnce::call_once")
+    n = 0
+    for b in ctx.prog.bodies:
+        tr = (b.j.get("impl_trait") or "").split("::")[-1].split("<")[0]
+        if tr not in traits or b.j.get("name") != ADAPTER_METHODS.get(tr) or b.is_closure():
+            continue
+        adt = ctx.prog.facts.adts.get(b.j.get("impl_adt") or "")
+        if adt is None or adt.get("vis") != "Public" or adt.get("kind") != "Struct":
+            continue
+        known_adapter = adt["path"].split("::")[-1] in ("FnSubscriber", "FnReducer", "FnSelector")  # exported names of the pinned revision
+        gen = ["*"] if known_adapter else [f["name"] for f in adt["variants"][0]["fields"] if (f["ty"] not in PRIMS and "::" not in f["ty"] and "<" not in f["ty"] and "&" not in f["ty"] and f["ty"][:1].isupper()) or ("dyn " in f["ty"] and "Fn" in f["ty"].split("dyn ", 1)[1][:40])]
+        if not gen:
+            continue
+        # composite adapters (a selector + a remembered value + a callback) have their own rules
+        if not known_adapter and len(adt["variants"][0]["fields"]) - len([f for f in adt["variants"][0]["fields"] if "PhantomData" in f["ty"]]) != 1:
+            continue
+        n += 1
+        rep.note_fn(b.path)
+        nm = adt["path"].split("::")[-1]
+        pe = ctx.paths(b)
+        rep.stats["paths"] += len(pe.paths)
+        good = True
+        why = ""
+        np_ = 0
+        for p in pe.paths:
+            if p.end != "return":
+                continue
+            np_ += 1
+            calls = [e for e in p.calls() if e.ck in FN and e.args and any(st == ("param", 1) for st in subterms(e.args[0]))]
+            if len(calls) != 1:
+                good, why = False, "path [%s] calls the wrapped closure %d time(s)" % (p.describe(), len(calls))
+                continue
+            a1 = calls[0].args[1] if len(calls[0].args) > 1 else ("opaque", "?")
+            ps = {st for st in subterms(a1) if st[0] == "param"}
+            if not ({("param", 2), ("param", 3)} <= ps) and b.arg_count >= 3:
+                good, why = False, "the closure is called with %s, not the method's arguments" % term_str(a1)
+            if tr != "Subscriber" and p.ret is not None and strip_wrap(p.ret) != strip_wrap(calls[0].result):
+                good, why = False, "the method returns %s, not the closure's result" % term_str(p.ret)
+        locks = [x for x in ctx.prog.sites(b) if x.ck in LOCK_CALLS]
+        if locks:
+            good, why = False, "the adapter takes a lock (%s) around the user's closure: two stores sharing the object serialise or skip each other" % locks[0].ck.split("::")[-1]
+        rep.check(good and np_ > 0, R, "adapter-forwards-unconditionally:%s" % nm, ctx.where(b), "%s::%s = one call of the wrapped closure with the same arguments on every path" % (nm, b.j.get("name")), "%s::%s: %s" % (nm, b.j.get("name"), why or "no returning path"))
+    rep.floor(R, "closure adapters of %s" % "/".join(traits), n, 1)
